@@ -468,3 +468,69 @@ CHECKS["C18"]["technique"] = ("Coq theorems (induction on key trees, lia on slic
                               "finite classification theorems + forced-branch program differential with per-site hit histogram + extracted-model correspondence")
 CHECKS["C04"]["technique"] = "Coq refinement proof (induction over op lists with a unique-keys invariant; member-wise delegation for lazy stacks) + step-wise extracted-model differential + nested-dict oracle"
 CHECKS["C10"]["technique"] = "Coq theorems (codec round trip by tree induction; order-freedom by induction over Permutation; failure propagation under collected = spawned) + permuting-executor, fault-injection and process-level differential runs"
+
+_splice("C02", "arguments torch rejects for the batch shape are rejected (transpose, unsqueeze, squeeze(dim), permute);",
+        "arguments torch rejects for the batch shape are rejected by EVERY one-result op (expand, view/reshape incl. the -1 inference, flatten, unflatten, "
+        "repeat, repeat_interleave, permute, transpose, squeeze, unsqueeze) on every tree that contains a tensor (view/reshape: a tensor without a size-0 "
+        "trailing dim), by unbind and chunk on every tree, by split(list) unless the sizes overshoot the dim (finding D4); at the ELEMENT level every torch "
+        "call made on a tensor of the tree has the element map (batch map of the op) x id_feat, at any depth, for the reshaping family and expand / repeat / "
+        "repeat_interleave (ravel/unravel lemma); gather with its index-shape rule, repeat_interleave(dim=None), names under transpose; lazy _permute: the "
+        "derived batch size is torch's shape and the new stack dim the position of the old one, for every stack dim and permutation;")
+_splice("C02", "view with -1, repeat_interleave(dim=None), names of transpose/unflatten, gather and out= are covered by the correspondence and oracle only; lazy stacks are oracle-only; torch kernels trusted.",
+        "out=, names of unflatten, rejection for gather/cat (cat never compares the operands' batch sizes: finding C02-p), element maps of permute / transpose / "
+        "gather and lazy ops other than permute are correspondence/oracle only; Spec/C02_TorchShape and Spec/C02_TorchElem are my statements of torch's "
+        "behaviour, validated every run; torch kernels trusted.", "note")
+
+_splice("C08", "Not proved (differential run only): an advanced index ON the stack dim or a mask across it, the other shape ops, update*/stack, reductions, comparison.",
+        "Proved as well: an integer tensor / list / range of any rank and any values ON the stack dim among basic indices (reads at any nesting depth; write "
+        "plans on flat stacks: in place, none replaced, value slices routed by index VALUE); a rank-1 mask on the stack dim (reads, flat stacks, non-empty "
+        "selection); what _split_index answers for masks starting on the stack dim (cat_dim, split_dim — refuted for the code before the repair of C08-D36); "
+        "unbind along the stack dim; update_ with a dense or same-dim lazy source (one in-place update per member with its own slice). Differential run only: "
+        "masks of rank >= 2 across the stack dim, write plans through masks, update_ from a lazy source along another dim, update / update_at_ / stack / cat, "
+        "the other shape ops, reductions, comparison.")
+
+_append("C12", "map / map_iter are inside the model end to end: for every dim (negative included; out of range raises), chunksize (0 = unbind and re-stack), "
+               "num_chunks, worker count, generator mode, pbar, out= kind and result lengths, None results, results of another size along dim and n = 0 "
+               "(behaviour at the empty dim stated exactly), map of a row-wise function equals the function on the whole and out= holds the sequential form; "
+               "map_iter yields the chunks' results in order, with shuffle a permutation of them under every completion order; the result METADATA of the "
+               "multithreaded apply (names / batch_size / device overrides, out= checks, checked mode, forwarding to nested levels) equals the "
+               "single-threaded one for all options, errors included; failing writer tasks surface exactly as in the sequential form (first failing task in "
+               "submission order) under every completion order.")
+_splice("C12", "names/batch_size/device/lazy stacks in the multithreaded apply, real pools, memmap files and n=0 are covered by the differential run only.",
+        "lazy-stack operands of the multithreaded apply, real pools, memmap files, leaf devices are covered by the differential run only; slicing / cat / stack "
+        "along a dim = take / concat on that dim's slices, and tqdm, are trusted.", "note")
+
+_splice("C13", "Not proved (model + run only): use_state_dict, inplace=True, swap_dest, hand-written swap-back.",
+        "swap_dest= blocks are inside every restore theorem (normal and exceptional exit, all module DAGs; the filled swap_dest is exactly the swap); "
+        "inplace=True keeps every slot's OBJECT for any call and any mix of plain / swap_dest / in-place blocks. Not proved (model + run only): "
+        "use_state_dict, hand-written swap-back, tensor contents and exceptional exits of in-place blocks.")
+
+_splice("C20", "Tie: the full lattice (46,656 points)",
+        "Lazy stacks are inside the model: member i of the result is the reference on (member i, the operands' i-th slices along self's stack dim, out[i]) "
+        "for every stack dim, member count and option point the lazy code accepts; refusals and their exception classes stated with a converse for calls that "
+        "return; apply_ keeps every member's objects, keys and storages; the thread-pool form equals the single-threaded one for lazy stacks too, for every "
+        "completion order; for regular tensordicts the root refusals are characterised (a refused (options, out=) pair raises exactly that class, a returning "
+        "call was not refused) and KeyError implies no default= at any depth. Tie: the full lattice (46,656 points)")
+_splice("C20", "Exception classes and non-regular containers (lazy through the stacked view, _SubTensorDict, tensorclass, TensorDictParams modulo identity/lock state) are covered by the differential run only.",
+        "What TensorDict._apply_nest computes on the stacked view (batch_size= without out=), _SubTensorDict, tensorclass / TensorDictParams wrappers and aliased "
+        "operands are covered by the differential run only; exception classes below the root are in the model and compared on every case but proved only as far "
+        "as KeyError => no default and the root characterisation.", "note")
+
+# C18 after the repairs D1801-D1804 (batch 8)
+_splice("C18", "(unravel_keys: refuted, the two paths differ on every accepted input — finding D1804 — with a partial theorem)",
+        "(unravel_keys included, for every argument list of any arity; the library before the repair is refuted by a witness)")
+_splice("C18", "(refuted + partial: names are dropped under compile, finding D1801)",
+        "(both arms store the same names for every argument; the library before the repair, which dropped names under compile, is refuted by a witness)")
+_splice("C18", "EVERY site of the library that tests is_compiling() (46, plus 6 that receive the flag as a keyword)",
+        "EVERY site of the library that tests is_compiling() (44 after the repairs removed three and added one, plus 6 that receive the flag as a keyword)")
+_splice("C18", "20 are checked pure guards (both specialisations compute the same token stream), 17 are dual sites modelled with theorems, 15 are dual sites listed by name as unmodelled.",
+        "the pure guards are CHECKED (both specialisations compute the same token stream), the dual sites are modelled with theorems or listed by name as "
+        "unmodelled (counts in the evidence: sites.guard / sites.dual_modelled / sites.dual_unmodelled).")
+_splice("C18", "(33 of 46 per quick run, histogram in the evidence)", "(about three quarters of them per quick run, histogram in the evidence)")
+_splice("C18", "Known findings in findings.d/C18.json.", "The four defects found by the deepened check (D1801-D1804) are repaired in /repo; `_parse_to`'s compile arm is a Python "
+        "transcription of torch's native parser (compared on ~29k spellings in the thorough tier).", "note")
+
+_splice("C19", "and every call of every history of in-place writes, rebinding writes, lock cycles reads the current content (refuted for the unrepaired rebinding write);",
+        "and every call of every history of in-place writes, rebinding writes, lock cycles reads the current content (refuted for the unrepaired rebinding write); "
+        "un-batching a shared (memoised or in_dims=None) view any number of times with any out_dims gives every result its own names list with None at its own "
+        "out_dim and leaves the view unchanged (refuted without the copy);")
